@@ -551,3 +551,248 @@ func clampRune(c rune) rune {
 	}
 	return c
 }
+
+// ---------- shared-prefix / revisit profile (C03, C04, C06, C12) ----------
+
+// Backtracky builds grammars in which tokens are written and then abandoned: alternatives sharing long prefixes
+// made of rule calls, captures and actions; repetitions whose last iteration fails after writing tokens;
+// captures/actions/rule calls inside & and !; rules re-entered at the same offset from different contexts
+// (so that packrat memoisation has hits to replay, in contexts that then succeed and contexts that then fail).
+func Backtracky(r *rand.Rand, alphabet []rune) *Grammar {
+	if alphabet == nil {
+		alphabet = []rune("abc\né😀")
+	}
+	for {
+		ch := func() rune { return alphabet[r.Intn(len(alphabet))] }
+		nh := 2 + r.Intn(4)
+		names := []string{"R0"}
+		for i := 0; i < nh; i++ {
+			names = append(names, fmt.Sprintf("H%d", i))
+		}
+		term := func() *Expr {
+			switch r.Intn(6) {
+			case 0:
+				a := ch()
+				return &Expr{K: KClass, Items: []Item{{a, clampRune(a + 2)}}}
+			case 1:
+				return &Expr{K: KLit, Text: []rune{ch(), ch()}}
+			case 2:
+				return &Expr{K: KDot}
+			default:
+				return &Expr{K: KLit, Text: []rune{ch()}}
+			}
+		}
+		href := func() *Expr { return Ref(names[1+r.Intn(nh)]) }
+		// one consuming "piece" that records tokens
+		piece := func() *Expr {
+			switch r.Intn(9) {
+			case 0, 1, 2:
+				return href()
+			case 3:
+				return Un(KCapture, term())
+			case 4:
+				return Seq(Un(KCapture, Un(KPlus, term())), Act())
+			case 5:
+				return Seq(Act(), term())
+			case 6:
+				return Seq(term(), Act())
+			case 7:
+				return Un(KCapture, Seq(href(), Un(KQuery, term())))
+			default:
+				return term()
+			}
+		}
+		prefix := func() []*Expr {
+			n := 1 + r.Intn(3)
+			var p []*Expr
+			for i := 0; i < n; i++ {
+				p = append(p, piece())
+			}
+			return p
+		}
+		clone := func(es []*Expr) []*Expr {
+			g := &Grammar{Rules: []*Rule{{Name: "x", E: &Expr{K: KSeq, Kids: es}}}}
+			return g.Clone().Rules[0].E.Kids
+		}
+		shared := func() *Expr {
+			p := prefix()
+			alt := &Expr{K: KAlt}
+			n := 2 + r.Intn(3)
+			for i := 0; i < n; i++ {
+				kids := clone(p)
+				if i < n-1 || r.Intn(2) == 0 {
+					kids = append(kids, piece())
+					if r.Intn(2) == 0 {
+						kids = append(kids, Act())
+					}
+				}
+				alt.Kids = append(alt.Kids, &Expr{K: KSeq, Kids: kids})
+			}
+			return alt
+		}
+		look := func() *Expr {
+			p := prefix()
+			switch r.Intn(4) {
+			case 0: // &P P tail
+				return &Expr{K: KSeq, Kids: append([]*Expr{Un(KAnd, &Expr{K: KSeq, Kids: clone(p)})}, append(clone(p), Un(KQuery, piece()))...)}
+			case 1: // !(P x) P
+				return &Expr{K: KSeq, Kids: append([]*Expr{Un(KNot, &Expr{K: KSeq, Kids: append(clone(p), term())})}, clone(p)...)}
+			case 2: // (!P . )* P
+				return Seq(Un(KStar, Seq(Un(KNot, &Expr{K: KSeq, Kids: clone(p)}), Dot())), &Expr{K: KSeq, Kids: clone(p)})
+			default: // &(<x> {a}) x
+				t := term()
+				t2 := *t
+				return Seq(Un(KAnd, Seq(Un(KCapture, t), Act())), &t2)
+			}
+		}
+		rep := func() *Expr {
+			p := prefix()
+			// (P x)* P y : the last iteration of the star fails after P wrote its tokens
+			return Seq(Un(KStar, &Expr{K: KSeq, Kids: append(clone(p), term())}), &Expr{K: KSeq, Kids: append(clone(p), Un(KQuery, term()))})
+		}
+		top := func() *Expr {
+			switch r.Intn(4) {
+			case 0:
+				return shared()
+			case 1:
+				return look()
+			case 2:
+				return rep()
+			default:
+				return Seq(shared(), Un(KQuery, look()))
+			}
+		}
+		g := &Grammar{}
+		body := top()
+		switch r.Intn(4) {
+		case 0:
+			body = Seq(body, Un(KStar, top()))
+		case 1:
+			body = Seq(Un(KPlus, body), Un(KNot, Dot()))
+		case 2:
+			body = Alt(Seq(body, Un(KNot, Dot())), top())
+		}
+		g.Rules = append(g.Rules, &Rule{Name: "R0", E: body})
+		for i := 0; i < nh; i++ {
+			var e *Expr
+			switch r.Intn(6) {
+			case 0:
+				e = Seq(Un(KCapture, Un(KPlus, term())), Act())
+			case 1:
+				e = Alt(Seq(term(), Act(), term()), term())
+			case 2:
+				e = Seq(term(), Un(KQuery, Ref(names[1+r.Intn(nh)])))
+			case 3:
+				e = Alt(Seq(term(), Ref(names[1+r.Intn(nh)])), Un(KCapture, term()))
+			case 4:
+				e = Seq(Act(), term(), Un(KStar, term()))
+			default:
+				e = term()
+			}
+			g.Rules = append(g.Rules, &Rule{Name: names[1+i], E: e})
+		}
+		// make every helper reachable
+		used := map[string]bool{}
+		g.Walk(func(_ *Rule, e *Expr) {
+			if e.K == KRef {
+				used[e.Name] = true
+			}
+		})
+		var extra []*Expr
+		for i := 0; i < nh; i++ {
+			if !used[names[1+i]] {
+				extra = append(extra, Ref(names[1+i]))
+			}
+		}
+		if len(extra) > 0 {
+			g.Rules[0].E = Seq(g.Rules[0].E, Un(KQuery, &Expr{K: KAlt, Kids: extra}))
+		}
+		if !g.WellFormed() {
+			continue
+		}
+		g.Number()
+		return g
+	}
+}
+
+// Nesting builds grammars for the tree properties (C05): unit-rule chains (parent and child with equal span),
+// zero-width tokens between siblings, many siblings, deep recursion.
+func Nesting(r *rand.Rand) (*Grammar, []string) {
+	for {
+		g := &Grammar{}
+		open, close := 'a'+rune(r.Intn(2)), 'x'+rune(r.Intn(2))
+		atoms := []*Expr{Lit("é"), Lit("k"), Rng('0', '3'), Lit("😀")}
+		atom := atoms[r.Intn(len(atoms))]
+		chain := 1 + r.Intn(4)
+		// R0 <- E !.  ; E <- U0 ; U0 <- U1 ; ... ; Uk <- open E+ close / Z Atom Z ; Z <- {act} / ''  ; Atom <- <atom>
+		g.Rules = append(g.Rules, &Rule{Name: "R0", E: Seq(Ref("E"), Un(KStar, Seq(Lit(","), Ref("E"))), Un(KNot, Dot()))})
+		g.Rules = append(g.Rules, &Rule{Name: "E", E: Ref("U0")})
+		for i := 0; i < chain; i++ {
+			g.Rules = append(g.Rules, &Rule{Name: fmt.Sprintf("U%d", i), E: Ref(fmt.Sprintf("U%d", i+1))})
+		}
+		var z *Expr
+		switch r.Intn(3) {
+		case 0:
+			z = Act()
+		case 1:
+			z = Un(KQuery, Lit("_"))
+		default:
+			z = Seq(Act(), Un(KStar, Lit("_")))
+		}
+		inner := Alt(Seq(&Expr{K: KLit, Text: []rune{open}}, Un(KPlus, Ref("E")), &Expr{K: KLit, Text: []rune{close}}), Seq(Ref("Z"), Ref("Atom"), Ref("Z")))
+		g.Rules = append(g.Rules, &Rule{Name: fmt.Sprintf("U%d", chain), E: inner})
+		g.Rules = append(g.Rules, &Rule{Name: "Z", E: z})
+		g.Rules = append(g.Rules, &Rule{Name: "Atom", E: Un(KCapture, atom)})
+		if !g.WellFormed() {
+			continue
+		}
+		g.Number()
+		// inputs: nested to various depths, many siblings
+		at := func() string {
+			switch atom.K {
+			case KLit:
+				return string(atom.Text)
+			default:
+				return string(rune('0' + r.Intn(4)))
+			}
+		}
+		var ins []string
+		var build func(d int) string
+		build = func(d int) string {
+			if d <= 0 || r.Intn(5) == 0 {
+				s := at()
+				if r.Intn(3) == 0 {
+					s = "_" + s
+				}
+				return s
+			}
+			n := 1
+			if d <= 4 {
+				n = 1 + r.Intn(3) // branch only near the leaves: size stays linear in the depth
+			}
+			s := string(open)
+			for i := 0; i < n; i++ {
+				s += build(d - 1)
+			}
+			return s + string(close)
+		}
+		for _, d := range []int{0, 1, 2, 3, 5, 8, 20, 60} {
+			ins = append(ins, build(d))
+		}
+		s := build(2)
+		for i := 0; i < 6; i++ {
+			s += "," + build(r.Intn(3))
+		}
+		ins = append(ins, s)
+		deep := ""
+		for i := 0; i < 60; i++ {
+			deep += string(open)
+		}
+		deep += at()
+		for i := 0; i < 60; i++ {
+			deep += string(close)
+		}
+		ins = append(ins, deep, deep[:len(deep)-1], "", string(open)+string(close))
+		return g, ins
+	}
+}
